@@ -224,3 +224,24 @@ def nearest(p, desc):
   if y is not None and np.sum((y - p) ** 2) < np.sum((x - p) ** 2) - 1e-9 and (h - G.dot(y)).max() <= 1e-9:
     return y
   return x
+
+
+def structurally_dependent(desc):
+  """the exported constraint rows (equalities, inequalities, unit rows of the variables fixed by their bounds) are linearly
+  dependent once parallel rows are merged: wherever such rows become active together LICQ fails and SLSQP's success flag is
+  not reliable (reported finding); the checks do not judge optimality there"""
+  lo, hi, Aeq, beq, G, h, _ = desc
+  m = len(lo)
+  rows = [np.eye(m)[i] for i in range(m) if hi[i] <= lo[i]] + [r for r in Aeq] + [r for r in G]
+  uniq = []
+  for r in rows:
+    nr = np.linalg.norm(r)
+    if nr < 1e-12:
+      return True
+    u = r / nr
+    if not any(abs(abs(u.dot(v)) - 1) < 1e-9 for v in uniq):
+      uniq.append(u)
+  if not uniq:
+    return False
+  U = np.array(uniq)
+  return np.linalg.matrix_rank(U, tol=1e-9) < U.shape[0]
